@@ -505,6 +505,26 @@ def s4(tier):
     return out + s4_multi(tier)
 
 
+def s3_strided(tier):
+    """run-length constraints on a factor with stride > 1 (blank trials between its levels): whether a blank trial breaks a run is
+    not determined by the documentation, so these designs are used only by the oracle-free check C07 (the two samplers must
+    still agree with each other)"""
+    out = []
+    A = basic('A', 2)
+    B = basic('B', 2)
+    fm0 = {'A': A, 'B': B}
+    for width, start in ((2, None), (3, None), (2, 0)):
+        N = window('N', ['A'], fm0, width, repeat_last2 if start is None else (lambda k: 0 if (k[-1] == k[-2] and '~' not in k) else None),
+                   stride=2, start=start, else_idx=None if start is None else 1, dep_none=start is not None)
+        for cr in (['A'], ['A', 'B']):
+            for cls, k in (('AtMostKInARow', 1), ('AtLeastKInARow', 2), ('ExactlyKInARow', 1), ('ExactlyKInARow', 2), ('ExactlyK', 1)):
+                for lv in ('n0', 'n1'):
+                    for mt in (None, 6):
+                        cs = [{'c': cls, 'k': k, 'factor': 'N', 'level': lv}] + ([{'c': 'MinimumTrials', 'k': mt}] if mt else [])
+                        out.append(spec([A, B, N], cross(['A', 'B', 'N'], cr, cs), 'S3s'))
+    return out
+
+
 def s4_multi(tier):
     """Repeat / Merge of a multi-crossing block (crossings of different sizes, so the crossings carry different weights), with
     and without a weighted factor that is in only one of the crossings"""
@@ -710,7 +730,7 @@ def s9(tier):
     return out
 
 
-STRATA = {'S1n': s1_numeric, 'S9': s9, 'S1p': s1_pairs, 'S1xa': s1_exclude_a11, 'S2s': s2_small, 'S1L': s1_latin3, 'S1': s1, 'S1x': s1_exclude, 'S2': s2, 'S3': s3, 'S4': s4, 'S5': s5, 'S6': s6}
+STRATA = {'S3s': s3_strided, 'S1n': s1_numeric, 'S9': s9, 'S1p': s1_pairs, 'S1xa': s1_exclude_a11, 'S2s': s2_small, 'S1L': s1_latin3, 'S1': s1, 'S1x': s1_exclude, 'S2': s2, 'S3': s3, 'S4': s4, 'S5': s5, 'S6': s6}
 
 
 def shape_key(d):
